@@ -441,7 +441,7 @@ def carriers_to_initial_spectrum(carriers):
                                     tx_power=dbm2watt(c['tx_power_dbm']), label=c['label']) for c in carriers}
 
 
-def carriers_to_si(carriers, shuffle_rng=None):
+def carriers_to_si(carriers, shuffle_rng=None, pch_dtype=None):
     import numpy as np
     from gnpy.core.info import create_arbitrary_spectral_information
     from gnpy.core.utils import dbm2watt
@@ -450,7 +450,7 @@ def carriers_to_si(carriers, shuffle_rng=None):
         shuffle_rng.shuffle(cs)
     return create_arbitrary_spectral_information(
         frequency=np.array([c['frequency'] for c in cs]),
-        pch=np.array([dbm2watt(c['tx_power_dbm']) for c in cs]),
+        pch=np.array([dbm2watt(c['tx_power_dbm']) for c in cs], dtype=pch_dtype),
         baud_rate=np.array([c['baud_rate'] for c in cs]), slot_width=np.array([c['slot_width'] for c in cs]),
         roll_off=np.array([c['roll_off'] for c in cs]), tx_osnr=np.array([c['tx_osnr'] for c in cs]),
         tx_power=np.array([dbm2watt(c['tx_power_dbm']) for c in cs]),
